@@ -354,7 +354,7 @@ func runCheck(prop, tier string, noReplay bool) int {
 			"inconclusive":          inconc,
 			"exhaustive":            false,
 		},
-		"assumptions": ps.Assumptions,
+		"assumptions": append(append([]string{}, ps.Assumptions...), initNotes()...),
 		"wall_s":      time.Since(t0).Seconds(),
 		"violations":  nViol,
 	}
@@ -398,4 +398,11 @@ func loadExpectedSites() map[string][]string {
 		return nil
 	}
 	return m
+}
+
+func initNotes() []string {
+	if len(gInitForked) == 0 {
+		return nil
+	}
+	return []string{"A-init: the package initialiser of " + strings.Join(gInitForked, ", ") + " ranges over a map; the checks start from the state in which such ranges went in insertion order"}
 }
